@@ -117,6 +117,7 @@ async fn send_numbered(s: &Socket, from: u64, n: u64) -> bool {
 /// Receive until `want` numbered messages from the healthy sender have arrived (8-byte payloads;
 /// anything else is counted separately), or `idle` passes without a message, or recv fails.
 async fn recv_numbered(s: &Socket, want: usize, idle: Duration, got: &mut Vec<u64>, other: &mut u64) -> bool {
+  let mut last = Instant::now();
   while got.len() < want {
     match timeout(idle, s.recv()).await {
       Ok(Ok(m)) => {
@@ -126,6 +127,11 @@ async fn recv_numbered(s: &Socket, want: usize, idle: Duration, got: &mut Vec<u6
         } else {
           *other += 1;
         }
+        last = Instant::now();
+      }
+      // a polling socket (RCVTIMEO = 0) answers "nothing yet" at once: keep polling until `idle` has passed
+      Ok(Err(rzmq::ZmqError::Timeout)) | Ok(Err(rzmq::ZmqError::ResourceLimitReached)) if last.elapsed() < idle => {
+        sleep(Duration::from_millis(3)).await;
       }
       Ok(Err(_)) => return false,
       Err(_) => return false,
@@ -222,10 +228,10 @@ async fn inject_inbound_fault(scn: u64, ctx: &Context, tcp_ep: &str, inproc_ep: 
       }
       "raw ZMTP/2.0 peer of incompatible type".into()
     }
-    11 => {
+    11 | 14 => {
       // burst: many raw peers whose garbage is already queued when the listener accepts them
       let mut hs = Vec::new();
-      for k in 0..40u8 {
+      for k in 0..(if scn == 14 { 120u8 } else { 40u8 }) {
         let a = addr.clone();
         hs.push(tokio::spawn(async move {
           if let Some(mut s) = raw_connect(&a).await {
@@ -274,6 +280,7 @@ async fn victim_usable(ctx: &Context, victim: &Socket, tcp_ep: &str, plain: bool
               got.push(u64::from_be_bytes(d.try_into().unwrap()));
             }
           }
+          Ok(Err(rzmq::ZmqError::Timeout)) | Ok(Err(rzmq::ZmqError::ResourceLimitReached)) => sleep(Duration::from_millis(3)).await,
           Ok(Err(_)) => break,
           Err(_) => {}
         }
@@ -289,6 +296,10 @@ async fn scenario_inbound(scn: u64, n: u64) -> Value {
   let ctx = Context::new().expect("ctx");
   let victim = mk(&ctx, SocketType::Pull).await;
   let plain = scn == 7;
+  if scn == 14 {
+    // a polling application: RCVTIMEO = 0, set before bind
+    let _ = victim.set_option(rzmq::socket::options::RCVTIMEO, 0i32).await;
+  }
   if plain {
     let _ = victim.set_option(PLAIN_SERVER, true).await;
     let _ = victim.set_option(PLAIN_USERNAME, "user").await;
@@ -758,7 +769,7 @@ fn run_stack(c: &Value) -> Value {
   let out = rt.block_on(async move {
     let fut = async {
       match scn {
-        1..=7 | 11 | 13 => scenario_inbound(scn, n).await,
+        1..=7 | 11 | 13 | 14 => scenario_inbound(scn, n).await,
         8..=10 => scenario_outbound(scn, n).await,
         12 => scenario_resume(scn, n).await,
         20 => scenario_timing(scn, &c2).await,
